@@ -10,6 +10,9 @@
 package c08
 
 import (
+	"encoding/json"
+	"os"
+	"path/filepath"
 	"bufio"
 	"bytes"
 	"context"
@@ -190,6 +193,7 @@ type scenario struct {
 	fsMsg  []byte
 	tm     [][2]string
 	early  int
+	delay  time.Duration // pause of the target between its last message and its final status
 	method *bridgedesc.Method
 
 	mu        sync.Mutex
@@ -199,6 +203,7 @@ type scenario struct {
 	sd        [][]byte
 	sdFail    int
 	tr        string
+	fmd       string // metadata.FromIncomingContext inside Forward ("none" = Forward not entered)
 	oc        string
 	wake      chan struct{}
 	closeSend bool
@@ -217,7 +222,7 @@ var (
 
 func newScenario(kv map[string]string) *scenario {
 	id := seq.Add(1)
-	sc := &scenario{kind: kv["k"], rt: kv["rt"], early: -1, te: "none", oc: "-", tr: "-", wake: make(chan struct{}), done: make(chan struct{}),
+	sc := &scenario{kind: kv["k"], rt: kv["rt"], early: -1, te: "none", oc: "-", tr: "-", fmd: "none", wake: make(chan struct{}), done: make(chan struct{}),
 		fwdDone: make(chan struct{}), sendIn: make(chan struct{}), sendOut: make(chan struct{})}
 	switch {
 	case sc.rt == "real":
@@ -237,6 +242,9 @@ func newScenario(kv map[string]string) *scenario {
 	}
 	if kv["ea"] != "-" && kv["ea"] != "" {
 		sc.early, _ = strconv.Atoi(kv["ea"])
+	}
+	if ms, err := strconv.Atoi(kv["dl"]); err == nil {
+		sc.delay = time.Duration(ms) * time.Millisecond
 	}
 	mt := messageType(kv["cd"])
 	sc.method = &bridgedesc.Method{
@@ -321,6 +329,26 @@ type recFwd struct{ inner grpcadapter.Forwarder }
 func (f recFwd) Forward(ctx context.Context, p grpcadapter.ForwardParams) error {
 	sc := lookup(p.Method.RPCName)
 	p.Incoming = &recStream{inner: p.Incoming, sc: sc}
+	// the request metadata exactly as ProxyForwarder.Forward reads it (keys sorted, values in order)
+	if md, ok := metadata.FromIncomingContext(ctx); ok {
+		keys := make([]string, 0, len(md))
+		for k := range md {
+			keys = append(keys, k)
+		}
+		sort.Strings(keys)
+		var items []string
+		for _, k := range keys {
+			for _, v := range md[k] {
+				items = append(items, CB([]byte(k))+":"+CB([]byte(v)))
+			}
+		}
+		sc.mu.Lock()
+		sc.fmd = "-"
+		if len(items) > 0 {
+			sc.fmd = strings.Join(items, ",")
+		}
+		sc.mu.Unlock()
+	}
 	err := f.inner.Forward(ctx, p)
 	sc.mu.Lock()
 	sc.oc = outcome(err)
@@ -436,6 +464,12 @@ func (t *targetStream) Recv(ctx context.Context, msg proto.Message) error {
 		b := t.sc.rs[t.next]
 		t.next++
 		return proto.Unmarshal(b, msg)
+	}
+	if t.sc.delay > 0 {
+		select {
+		case <-time.After(t.sc.delay):
+		case <-ctx.Done():
+		}
 	}
 	if t.sc.fsCode == 0 {
 		return io.EOF
@@ -618,12 +652,31 @@ func (Area) Exec(input string) string {
 		}
 		st := status.New(codes.Code(code), string(UnCB(f[2])))
 		return CB(webbridge.VerifLpmTrailer(webbridge.VerifTrailerWithStatus(md, st)))
+	case "obs":
+		return execFlushObs(f[1], kvs(f[2:]))
 	case "http":
 		return execHTTP(f[1], kvs(f[2:]))
 	case "ws":
 		return execWS(kvs(f[1:]))
 	}
 	return "BADOP"
+}
+
+// closeTimeout is the bridge's WebSocket close timeout as the fact extractor read it from the sources
+// (wsCloseTimeoutMs in $VERIF_WORK/facts.json); 3 s if the tree under test has none.
+func closeTimeout() time.Duration {
+	d := 3 * time.Second
+	if b, err := os.ReadFile(filepath.Join(os.Getenv("VERIF_WORK"), "facts.json")); err == nil {
+		var facts []struct{ Name, Value string }
+		if json.Unmarshal(b, &facts) == nil {
+			for _, f := range facts {
+				if ms, err := strconv.Atoi(f.Value); f.Name == "wsCloseTimeoutMs" && err == nil && ms > 0 {
+					d = time.Duration(ms) * time.Millisecond
+				}
+			}
+		}
+	}
+	return d
 }
 
 // Every session has its own watchdog: a handler that has not returned `watchdog()` after the client saw the end
@@ -663,7 +716,7 @@ func (sc *scenario) observed() string {
 	if len(sc.rv) > 0 {
 		rv = strings.Join(sc.rv, ",")
 	}
-	return fmt.Sprintf("rv=%s tg=%s te=%s sd=%s sf=%d tr=%s oc=%s", rv, cbList(sc.tg), sc.te, cbList(sc.sd), sc.sdFail, sc.tr, sc.oc)
+	return fmt.Sprintf("rv=%s tg=%s te=%s sd=%s sf=%d tr=%s md=%s oc=%s", rv, cbList(sc.tg), sc.te, cbList(sc.sd), sc.sdFail, sc.tr, sc.fmd, sc.oc)
 }
 
 func chunkPattern(s string) []int {
@@ -738,6 +791,46 @@ func execHTTP(ver string, kv map[string]string) string {
 		return fmt.Sprintf("CLIENTERR %s hs=%s", common.HexS(rerr.Error()), hs)
 	}
 	return fmt.Sprintf("st=%d hs=%s %s body=%s gd=%s", resp.StatusCode, hs, sc.observed(), CB(body), goDecode(body))
+}
+
+// execFlushObs: OBSERVATION, not a judgement. A server-streaming call whose target sends one small message and then
+// stays silent for `dl` ms before the final status: when does the client see the first body byte? GRPCWebBridge never
+// flushes, so the frame stays in net/http's buffers until the handler returns (first=atend).
+func execFlushObs(ver string, kv map[string]string) string {
+	servers()
+	sc := newScenario(kv)
+	defer registry.Delete(sc.path)
+	// a client of its own (the observation must not depend on the state of the shared connections)
+	srv := srvH1
+	tr := &http.Transport{DisableKeepAlives: true}
+	if ver == "h2" {
+		srv = srvH2
+		tr = &http.Transport{TLSClientConfig: &tls.Config{InsecureSkipVerify: true}, ForceAttemptHTTP2: true}
+	}
+	defer tr.CloseIdleConnections()
+	cli := &http.Client{Transport: tr}
+	ctx, cancel := context.WithTimeout(context.Background(), 5*time.Second)
+	defer cancel()
+	req, _ := http.NewRequestWithContext(ctx, http.MethodPost, srv.URL+sc.path, bytes.NewReader([]byte{0, 0, 0, 0, 0}))
+	req.Header.Set("Content-Type", "application/grpc-web+proto")
+	t0 := time.Now()
+	resp, err := cli.Do(req)
+	if err != nil {
+		// no observation this time (it is not a judgement): say so instead of failing the run
+		return fmt.Sprintf("st=200 hs=%s first=unobserved", sc.handlerState())
+	}
+	defer resp.Body.Close()
+	one := make([]byte, 1)
+	_, err = io.ReadFull(resp.Body, one)
+	tFirst := time.Since(t0)
+	_, _ = io.Copy(io.Discard, resp.Body)
+	tEnd := time.Since(t0)
+	hs := sc.handlerState()
+	first := "atend"
+	if err == nil && tEnd-tFirst > sc.delay/2 {
+		first = "early"
+	}
+	return fmt.Sprintf("st=%d hs=%s first=%s", resp.StatusCode, hs, first)
 }
 
 // ---------------------------------------------------------------------------------------------
@@ -891,14 +984,23 @@ func execWS(kv map[string]string) string {
 	// sp=stall: the client does not read while the target's (large) first answer is being sent, then sends its
 	// last message (a framing error) so that Forward returns while that Send is still in flight, then reads on
 	stall := kv["sp"] == "stall"
+	// sp=flood: the client writes all its messages without waiting and reads nothing until Forward has returned (and the
+	// bridge had the time to close): at the moment of the close the server still has unread input from the client and a
+	// response tail the client has not received yet (its receive buffer is small). Nothing of the response may be lost.
+	flood := kv["sp"] == "flood"
+	// sp=mute: the client never answers the close frame and keeps the connection open: the handler must give up after
+	// the bridge's close timeout
+	mute := kv["sp"] == "mute"
 
 	d := websocket.Dialer{Subprotocols: []string{"grpc-websockets"}, HandshakeTimeout: 10 * time.Second,
 		ReadBufferSize: 1 << 16, WriteBufferSize: 1 << 16}
-	if stall {
+	if stall || flood {
 		d.NetDialContext = func(ctx context.Context, network, addr string) (net.Conn, error) {
 			c, err := (&net.Dialer{}).DialContext(ctx, network, addr)
 			if tc, ok := c.(*net.TCPConn); ok {
-				_ = tc.SetReadBuffer(1 << 16) // a fixed small receive buffer: the server's write must block
+				// a fixed small receive buffer: the server's write must block (stall) / the tail of its response stay in its
+				// send queue (flood). Not smaller than the loopback MSS, or the transfer itself crawls.
+				_ = tc.SetReadBuffer(1 << 16)
 			}
 			return c, err
 		}
@@ -912,16 +1014,21 @@ func execWS(kv map[string]string) string {
 		return fmt.Sprintf("up=%d hs=%s ws=- cl=none %s", code, sc.handlerState(), sc.observed())
 	}
 	defer c.Close()
-	// the default handler answers the close frame and turns a failure of that write (the server has already
-	// closed the TCP connection) into the read error; the close code is what we want to observe
-	c.SetCloseHandler(func(int, string) error { return nil })
+	// answer the close frame like every WebSocket client does (the bridge waits for it, bounded by its close timeout),
+	// but do not let a failure of that write (the server may have closed already) hide the close code we want to observe
+	c.SetCloseHandler(func(code int, _ string) error {
+		if !mute {
+			_ = c.WriteControl(websocket.CloseMessage, websocket.FormatCloseMessage(code, ""), time.Now().Add(time.Second))
+		}
+		return nil
+	})
 
 	limit := 10 * watchdog() // session watchdog
 	var got [][]byte
 	cl := "none"
 	rdone := make(chan struct{})
 	startReader := make(chan struct{})
-	if !stall {
+	if !stall && !flood {
 		close(startReader)
 	}
 	go func() {
@@ -959,6 +1066,25 @@ func execWS(kv map[string]string) string {
 		}
 	}
 	blk, fwd := "no", "pending"
+	if flood {
+		wdone := make(chan struct{})
+		go func() { // writer of its own: it may block once the server stops reading
+			defer close(wdone)
+			for _, m := range msgs {
+				_ = c.SetWriteDeadline(time.Now().Add(limit))
+				if err := c.WriteMessage(websocket.BinaryMessage, m); err != nil {
+					return
+				}
+			}
+		}()
+		if after(sc.fwdDone, watchdog()) {
+			fwd = "returned"
+			time.Sleep(200 * time.Millisecond) // let the bridge write the trailer and close
+		}
+		close(startReader)
+		msgs = nil
+		defer func() { <-wdone }()
+	}
 	for i, m := range msgs {
 		if stall && i == len(msgs)-1 {
 			if after(sc.sendIn, watchdog()) && !after(sc.sendOut, 250*time.Millisecond) {
@@ -979,6 +1105,9 @@ func execWS(kv map[string]string) string {
 		close(startReader)
 		extra = fmt.Sprintf(" blk=%s fwd=%s", blk, fwd)
 	}
+	if flood {
+		extra = fmt.Sprintf(" fwd=%s", fwd)
+	}
 	select {
 	case <-rdone:
 	case <-time.After(limit + time.Second):
@@ -986,6 +1115,35 @@ func execWS(kv map[string]string) string {
 	}
 	if cl == "timeout" {
 		hangs.Add(1)
+	}
+	if mute {
+		// the client saw the close frame, does not answer and keeps the connection open: the handler must return and the
+		// connection be closed by the bridge within its close timeout
+		bound := closeTimeout()
+		t0 := time.Now()
+		ret := sc.wait(bound + 2*time.Second)
+		el := time.Since(t0)
+		// the connection must be closed from the server side by then: a read ends with an error quickly
+		_ = c.UnderlyingConn().SetReadDeadline(time.Now().Add(500 * time.Millisecond))
+		_, rerr := c.UnderlyingConn().Read(make([]byte, 1))
+		var ne net.Error
+		tcp := "closed"
+		if rerr == nil || (errors.As(rerr, &ne) && ne.Timeout()) {
+			tcp = "open"
+		}
+		verdict := "ok"
+		if !ret {
+			verdict = "stuck"
+		} else if el > bound+1500*time.Millisecond {
+			verdict = "late"
+		}
+		c.Close()
+		hsm := "returned"
+		if !ret {
+			hsm = "stuck"
+			hangs.Add(1)
+		}
+		return fmt.Sprintf("up=%d hs=%s bound=%s tcp=%s ws=%s cl=%s %s", resp.StatusCode, hsm, verdict, tcp, cbList(got), cl, sc.observed())
 	}
 	c.Close()
 	hs := sc.handlerState()
@@ -1239,6 +1397,56 @@ func genHTTP(r *rand.Rand) string {
 	return fmt.Sprintf("http %s k=%s cd=%s rt=%s fr=%s tl=%s ck=%s %s ea=%s", ver, kind, codec, rt, fr, CB(tl), ck, genScript(r, codec), ea)
 }
 
+// genHeaderMsg: the first gRPC-WebSocket message (metadata as HTTP/1.1 header lines), well-formed and not
+func genHeaderMsg(r *rand.Rand) []byte {
+	keys := []string{"content-type", "Content-Type", "CONTENT-TYPE", "x-grpc-web", "X-User-Agent", "grpc-timeout", "authorization",
+		"x-a", "a", "A-b-C", "x_1.2", "k!#$%&'*+-.^_`|~9", "te"}
+	vals := []string{"application/grpc-web+proto", "1", "", "a b", "grpc-web-javascript/0.1", "v\twith tab", "caf\xc3\xa9 \xff", "x: y", "=="}
+	var sb []byte
+	used := map[string]bool{}
+	n := common.Pick(r, []int{0, 1, 1, 2, 3, 5})
+	for i := 0; i < n; i++ {
+		k := common.Pick(r, keys)
+		v := common.Pick(r, vals)
+		nl := common.Pick(r, []string{"\r\n", "\r\n", "\r\n", "\n"})
+		sep := common.Pick(r, []string{": ", ": ", ":", ":  ", ":\t ", " : "})
+		if sep == " : " { // a key with a space is kept as written: avoid two that differ by case only (map order)
+			if used[strings.ToLower(k)] {
+				sep = ": "
+			}
+			used[strings.ToLower(k)] = true
+		}
+		line := k + sep + v + common.Pick(r, []string{"", "", " ", "\t"})
+		if r.Intn(6) == 0 { // folded continuation
+			line += nl + common.Pick(r, []string{" ", "\t", "   "}) + common.Pick(r, []string{"more", "", "x  ", "a:b"})
+		}
+		sb = append(sb, line+nl...)
+	}
+	switch r.Intn(14) {
+	case 0: // no final newline: EOF before the empty line
+		if len(sb) > 0 {
+			sb = bytes.TrimRight(sb, "\r\n")
+		}
+	case 1:
+		sb = append(sb, common.Pick(r, []string{"no colon here\r\n", ": empty-key\r\n", "bad\tkey: v\r\n", "k\xc3\xa9y: v\r\n", "k(ey: v\r\n",
+			"k: ctl\x01\r\n", "k: del\x7f\r\n", "k: cr\rinside\r\n", "k: nul\x00\r\n", "a\r\n: b\r\n"})...)
+	case 2:
+		sb = append([]byte(common.Pick(r, []string{" ", "\t", "  x: y\r\n"})), sb...)
+	case 3: // an empty line in the middle: the rest is ignored
+		sb = append(sb, "\r\nthis is: ignored\r\nand this too"...)
+	case 4:
+		sb = append(sb, common.RandBytes(r, 1+r.Intn(6), []byte("a:\r\n \t\x00\xffZ-"))...)
+	case 5: // long lines (no limit applies)
+		sb = append(sb, ("x-long: " + strings.Repeat("v", 5000+r.Intn(3000)) + "\r\n")...)
+	}
+	return sb
+}
+
+func genWSHeader(r *rand.Rand) string {
+	count("ws:header")
+	return fmt.Sprintf("ws k=bd cd=raw rt=%s hd=h:%s ms=f rs=- fs=0:x tm=- ea=-", common.Pick(r, []string{"ok", "ok", "ok", "7:x6e6f"}), CB(genHeaderMsg(r)))
+}
+
 func genWS(r *rand.Rand) string {
 	kind := common.Pick(r, []string{"uu", "cs", "ss", "bd", "bd", "cs"})
 	codec := common.Pick(r, []string{"raw", "raw", "empty"})
@@ -1353,6 +1561,35 @@ func genStalledWS(r *rand.Rand) string {
 	return fmt.Sprintf("ws k=%s cd=raw rt=ok hd=ok:x ms=%s rs=%s fs=0:x tm=- ea=%d sp=stall", kind, strings.Join(items, ","), cbList(rs), nm)
 }
 
+// genFlood: the bridge ends the call (early answer / unary request already taken) while the client keeps writing and
+// has not read anything yet; the response is larger than the client's receive buffer
+func genFlood(r *rand.Rand) string {
+	kind := common.Pick(r, []string{"ss", "bd", "bd", "cs"})
+	items := []string{"d:" + CB(payloadBytes(r, 1+r.Intn(8))), "d:" + CB(payloadBytes(r, 1+r.Intn(300)))}
+	for i, n := 0, 1+r.Intn(4); i < n; i++ {
+		items = append(items, "d:"+CB(bytes.Repeat([]byte{byte('a' + r.Intn(26))}, 16384+r.Intn(60000))))
+	}
+	var rs [][]byte
+	nr := 4 + r.Intn(5)
+	if kind == "cs" {
+		nr = 1
+	}
+	for i := 0; i < nr; i++ {
+		sz := 65536 + r.Intn(20000)
+		if kind == "cs" {
+			sz = 400000 + r.Intn(100000)
+		}
+		rs = append(rs, bytes.Repeat([]byte{byte('A' + r.Intn(26))}, sz))
+	}
+	ea := "-"
+	if kind != "ss" {
+		ea = "1"
+	}
+	code := common.Pick(r, []uint32{0, 1, 7, 16})
+	count("ws:sp:flood")
+	return fmt.Sprintf("ws k=%s cd=raw rt=ok hd=ok:x ms=%s rs=%s fs=%d:%s tm=- ea=%s sp=flood", kind, strings.Join(items, ","), cbList(rs), code, CB([]byte("no")), ea)
+}
+
 func (Area) Gen(r *rand.Rand, tier string, emit func(string)) {
 	// url.PathEscape on all 256 single bytes, exhaustively, every run
 	for b := 0; b < 256; b++ {
@@ -1383,6 +1620,13 @@ func (Area) Gen(r *rand.Rand, tier string, emit func(string)) {
 	for i := 0; i < nWS; i++ {
 		emit(genWS(r))
 	}
+	nH := 500
+	if tier == "thorough" {
+		nH = 20000
+	}
+	for i := 0; i < nH; i++ {
+		emit(genWSHeader(r))
+	}
 	nT, nB, nS := 6, 12, 2
 	if tier == "thorough" {
 		nT, nB, nS = 40, 120, 8
@@ -1395,5 +1639,12 @@ func (Area) Gen(r *rand.Rand, tier string, emit func(string)) {
 	}
 	for i := 0; i < nS; i++ {
 		emit(genStalledWS(r))
+	}
+	nF := 6
+	if tier == "thorough" {
+		nF = 60
+	}
+	for i := 0; i < nF; i++ {
+		emit(genFlood(r))
 	}
 }
